@@ -22,7 +22,7 @@ for q, con in sorted(contracts.REGISTRY.items()):
         if o.status != "discharged" or verbose:
             print("   %-10s %-6s %5.2fs %s" % (o.status, o.backend, o.secs, o.name))
             if o.status == "failed" and o.model:
-                print("        model:", {k: v for k, v in sorted(o.model.items()) if not k.startswith(("q?", "p?", "j?"))})
+                print("        model:", {k: v for k, v in sorted(o.model.items()) if not k.startswith(("q?", "p?", "j?")) and not isinstance(v, list)})
         if o.status != "discharged":
             bad += 1
 print("not discharged:", bad)
